@@ -61,7 +61,7 @@ NA = {
 def main():
     props = [json.loads(l) for l in open(os.path.join(ROOT, "properties.jsonl"))]
     hooks = subprocess.run(["git", "-C", "/repo", "log", "--format=%H %s"], capture_output=True, text=True).stdout.splitlines()
-    hook_commits = [l.split()[0] for l in hooks if "verif hooks" in l]
+    hook_commits = [l.split()[0] for l in hooks if "verif hook" in l]
     checks, na = [], []
     for p in props:
         i = p["id"]
